@@ -364,6 +364,9 @@ def enumeration_plans(scn, stride=1, scratch_root=None):
     plans = []
     for k in range(1, (ext.get("calls") or 0) + 1, stride):
         plans.append({"kind": "trace", "at": k, "gran": "call"})
+    for k in range(3, (ext.get("calls") or 0) + 1, 5 * stride):
+        # asynchronous interruption (not an Exception subclass) at every fifth boundary
+        plans.append({"kind": "intr", "at": k, "gran": "call"})
     for j in range(1, (ext.get("io") or 0) + 1):
         plans.append({"kind": "io", "at": j})
         plans.append({"kind": "short", "at": j})
